@@ -138,6 +138,10 @@ def _weave_states_in_region(
                     if_state = _weave_states_in_region(op.true_region, state.copy(), rewriter)
                     else_state = _weave_states_in_region(op.false_region, state.copy(), rewriter)
 
+                    # a state that got invalidated in one of the branches is unknown after the if:
+                    for accel in [k for k in state if k not in if_state or k not in else_state]:
+                        del state[accel]
+
                     # calculate the delta:
                     delta = calc_if_state_delta(state, if_state, else_state)
                     # no delta = nothing to do
@@ -187,6 +191,9 @@ def _weave_states_in_region(
                     # check which states got new uses:
                     # no state change in loop => nothing to do
                     if not updated_accelerators:
+                        # ops in the loop body may still affect the accelerator state
+                        if has_accfg_effects(op):
+                            state.clear()
                         continue
 
                     # insert empty setup ops for all setups that don't have a state before the loop
@@ -244,6 +251,9 @@ def _weave_states_in_region(
                         op.results = SSAValues((*op.results, new_result))
 
                     # update states
+                    # states that are not carried through the loop are unknown if the body affects them
+                    if has_accfg_effects(op):
+                        state.clear()
                     for result in op.results:
                         if isinstance(result.type, accfg.StateType):
                             # update the state to reflect this
@@ -251,6 +261,9 @@ def _weave_states_in_region(
                 # any other op that contains ops:
                 elif op.regions:
                     _weave_states_in_region(op, dict(), rewriter)
+                    # ops nested in the regions may still affect the accelerator state
+                    if has_accfg_effects(op):
+                        state.clear()
                 # Check if the op has effects on accfg state
                 elif has_accfg_effects(op):
                     state.clear()
